@@ -189,32 +189,54 @@ def run_impl(d):
     obsP(ob, p, "filter.")
     for e in evs:
         ob.add("pred", e)
-    # dense joint over z_0, z_1..z_T, x_1..x_T built independently
-    A = gtlib.fl(d["state"]["M"][0]); b = gtlib.fl(d["state"]["b"][0]); Q = gtlib.fl(d["state"]["Sig"][0])
-    Cm = gtlib.fl(d["emis"]["M"][0]); dd = gtlib.fl(d["emis"]["b"][0]); Rm = gtlib.fl(d["emis"]["Sig"][0])
-    m0 = gtlib.fl(d["prior"]["mu"][0]); S0 = gtlib.fl(d["prior"]["Sig"][0])
+    # dense joint over z_0, z_1..z_T, x_1..x_T built independently, in EXACT rational arithmetic (a float64 dense
+    # joint loses up to eight digits for expanding dynamics and T ~ 12: that was a false alarm of the thorough tier)
+    from fractions import Fraction as Fr
+    A = d["state"]["M"][0]; b = d["state"]["b"][0]; Q = d["state"]["Sig"][0]
+    Cm = d["emis"]["M"][0]; dd = d["emis"]["b"][0]; Rm = d["emis"]["Sig"][0]
+    m0 = list(d["prior"]["mu"][0]); S0 = d["prior"]["Sig"][0]
     n = (T + 1) * Dz + T * Dx
-    # linear map from independent noises e = (z0 - m0, q_1..q_T, r_1..r_T) to (z_0..z_T, x_1..x_T)
-    G = np.zeros((n, n)); mean = np.zeros(n)
-    blocks = [S0] + [Q] * T + [Rm] * T
-    Cov_e = np.zeros((n, n)); pos = 0
-    for B in blocks:
-        k = B.shape[0]; Cov_e[pos:pos + k, pos:pos + k] = B; pos += k
-    mz = m0.copy(); Gz = np.zeros((Dz, n)); Gz[:, :Dz] = np.eye(Dz)
-    G[:Dz] = Gz; mean[:Dz] = mz
+    Z = lambda r, c: [[Fr(0)] * c for _ in range(r)]
+    mv = lambda M_, v: [sum(M_[i][k] * v[k] for k in range(len(v))) for i in range(len(M_))]
+    G = Z(n, n); mean = [Fr(0)] * n
+    Cov_e = Z(n, n); pos = 0
+    for B in [S0] + [Q] * T + [Rm] * T:
+        k = len(B)
+        for i in range(k):
+            for j in range(k):
+                Cov_e[pos + i][pos + j] = Fr(B[i][j])
+        pos += k
+    mz = [Fr(x) for x in m0]; Gz = Z(Dz, n)
+    for i in range(Dz):
+        Gz[i][i] = Fr(1)
+    for i in range(Dz):
+        G[i] = list(Gz[i]); mean[i] = mz[i]
     for t in range(1, T + 1):
-        mz = A @ mz + b; Gz = A @ Gz; Gz[:, t * Dz:(t + 1) * Dz] += np.eye(Dz)
-        G[t * Dz:(t + 1) * Dz] = Gz; mean[t * Dz:(t + 1) * Dz] = mz
+        mz = [x + y for x, y in zip(mv(A, mz), b)]; Gz = lin.fmm(A, Gz)
+        for i in range(Dz):
+            Gz[i][t * Dz + i] += 1
+        for i in range(Dz):
+            G[t * Dz + i] = list(Gz[i]); mean[t * Dz + i] = mz[i]
         r0 = (T + 1) * Dz + (t - 1) * Dx
-        Gx = Cm @ Gz; Gx[:, (T + 1) * Dz + (t - 1) * Dx:(T + 1) * Dz + t * Dx] += np.eye(Dx)
-        G[r0:r0 + Dx] = Gx; mean[r0:r0 + Dx] = Cm @ mz + dd
-    Sig = G @ Cov_e @ G.T
-    iz = slice(T * Dz, (T + 1) * Dz); ix = slice((T + 1) * Dz, n)
-    yv = gtlib.fl(d["ys"]).reshape(-1)
-    Sxx = Sig[ix, ix]; K = Sig[iz, ix] @ np.linalg.inv(Sxx)
-    mu_f = mean[iz] + K @ (yv - mean[ix]); S_f = Sig[iz, iz] - K @ Sig[ix, iz]
+        Gx = lin.fmm(Cm, Gz)
+        for i in range(Dx):
+            Gx[i][r0 + i] += 1
+        mx = [x + y for x, y in zip(mv(Cm, mz), dd)]
+        for i in range(Dx):
+            G[r0 + i] = list(Gx[i]); mean[r0 + i] = mx[i]
+    Sig = lin.fmm(lin.fmm(G, Cov_e), [list(r) for r in zip(*G)])
+    iz = list(range(T * Dz, (T + 1) * Dz)); ix = list(range((T + 1) * Dz, n))
+    sub = lambda I, J: [[Sig[i][j] for j in J] for i in I]
+    yv = [Fr(v) for y in d["ys"] for v in y]
+    Sxx = sub(ix, ix); Sxxi = lin.finv(Sxx); K = lin.fmm(sub(iz, ix), Sxxi)
+    res = [yv[i] - mean[ix[i]] for i in range(len(ix))]
+    mu_f = gtlib.fl([mean[iz[i]] + mv(K, res)[i] for i in range(Dz)])
+    KS = lin.fmm(K, sub(ix, iz))
+    S_f = gtlib.fl([[Sig[iz[i]][iz[j]] - KS[i][j] for j in range(Dz)] for i in range(Dz)])
+    quad = sum(res[i] * mv(Sxxi, res)[i] for i in range(len(res)))
+    dense_ev = -0.5 * float(quad) - 0.5 * (len(ix) * math.log(2 * math.pi) + (lambda dt: math.log(dt.numerator) - math.log(dt.denominator))(lin.fdet(Sxx)))
     lin.chk(fails, ["C11"], "filtered mean = conditioning the dense joint", "kalman", np.asarray(p.mu)[0], mu_f)
     lin.chk(fails, ["C11"], "filtered covariance = conditioning the dense joint", "kalman", np.asarray(p.Sigma)[0], S_f)
     lin.chk(fails, ["C11"], "accumulated evidence = log-density of all observations under the dense joint", "kalman",
-            np.sum(evs), lin.logN(yv[None], mean[ix], Sxx)[0])
+            np.sum(evs), dense_ev)
     return ob, fails
